@@ -254,4 +254,131 @@ theorem Safe.many {rd : Reader α} (h : Safe rd) (n : Nat) : Safe (readMany rd n
     unfold readMany
     exact Safe.bind h (fun a => Safe.bind ih (fun _ => Safe.pure _))
 
+theorem Reads.optional_none (rd : Reader α) : Reads (optional rd) [0] none := by
+  unfold BinCodec.optional
+  have := Reads.bind (g := fun h : Bool => if h = true then (rd >>= fun a => Pure.pure (some a)) else Pure.pure none)
+    (Reads.bool false) (w2 := []) (b := (none : Option α)) (by simp; exact Reads.pure _)
+  simpa [wbool] using this
+
+theorem Safe.optional {rd : Reader α} (h : Safe rd) : Safe (optional rd) := by
+  unfold BinCodec.optional
+  exact Safe.bind Safe.rbool (fun b => Safe.ite (Safe.bind h (fun _ => Safe.pure _)) (Safe.pure _))
+
+theorem Safe.readEnum (allowed : List Nat) : Safe (readEnum allowed) := by
+  unfold BinCodec.readEnum
+  exact Safe.bind Safe.u8 (fun _ => Safe.ite (Safe.pure _) (Safe.fail _))
+
+/-! ### `Post P rd`: every successful result of `rd` satisfies `P` -/
+
+def Post (P : α → Prop) (rd : Reader α) : Prop :=
+  ∀ inp a rest, (rd inp).res = .ok (a, rest) → P a
+
+theorem Post.pure {P : α → Prop} {a : α} (h : P a) : Post P (Pure.pure a : Reader α) := by
+  intro inp a' rest hr
+  have h' : (Except.ok (a, inp) : Except Err (α × Bytes)) = .ok (a', rest) := hr
+  injection h' with h'; injection h' with h1 _; subst h1; exact h
+
+theorem Post.fail {P : α → Prop} (e : Err) : Post P (fail e : Reader α) := by
+  intro inp a rest h; cases h
+
+theorem Post.trivial (rd : Reader α) : Post (fun _ => True) rd := fun _ _ _ _ => True.intro
+
+theorem Post.bind {Q : α → Prop} {P : β → Prop} {f : Reader α} {g : α → Reader β}
+    (hf : Post Q f) (hg : ∀ a, Q a → Post P (g a)) : Post P (f >>= g) := by
+  intro inp b rest h
+  rw [bind_def] at h
+  cases hr : (f inp).res with
+  | error e => rw [bind_res_err hr] at h; cases h
+  | ok p =>
+    obtain ⟨a, mid⟩ := p
+    rw [bind_res_ok hr] at h
+    exact hg a (hf inp a mid hr) mid b rest h
+
+theorem Post.ite {P : α → Prop} {c : Prop} [Decidable c] {f g : Reader α} (hf : Post P f)
+    (hg : Post P g) : Post P (if c then f else g) := by
+  split <;> assumption
+
+theorem Post.many {P : α → Prop} {rd : Reader α} (h : Post P rd) (n : Nat) :
+    Post (fun l => ∀ x ∈ l, P x) (readMany rd n) := by
+  induction n with
+  | zero => exact Post.pure (by intro x hx; cases hx)
+  | succ n ih =>
+    unfold readMany
+    refine Post.bind h (fun a ha => Post.bind ih (fun as has => Post.pure ?_))
+    intro x hx
+    rcases List.mem_cons.mp hx with e | e
+    · subst e; exact ha
+    · exact has x e
+
+theorem Post.optional {P : α → Prop} {rd : Reader α} (h : Post P rd) :
+    Post (fun o => ∀ x, o = some x → P x) (optional rd) := by
+  unfold BinCodec.optional
+  refine Post.bind (Post.trivial _) (fun b _ => Post.ite ?_ (Post.pure (by intro x hx; cases hx)))
+  exact Post.bind h (fun a ha => Post.pure (by intro x hx; injection hx with hx; subst hx; exact ha))
+
+theorem bind_ok_inv {f : Reader α} {g : α → Reader β} {inp rest : Bytes} {b : β}
+    (h : ((f >>= g) inp).res = .ok (b, rest)) :
+    ∃ a mid, (f inp).res = .ok (a, mid) ∧ (g a mid).res = .ok (b, rest) := by
+  rw [bind_def] at h
+  cases hr : (f inp).res with
+  | error e => rw [bind_res_err hr] at h; cases h
+  | ok p =>
+    obtain ⟨a, mid⟩ := p
+    rw [bind_res_ok hr] at h
+    exact ⟨a, mid, rfl, h⟩
+
+theorem pure_ok_inv {a a' : α} {inp rest : Bytes}
+    (h : ((Pure.pure a : Reader α) inp).res = .ok (a', rest)) : a' = a ∧ rest = inp := by
+  have h' : (Except.ok (a, inp) : Except Err (α × Bytes)) = .ok (a', rest) := h
+  injection h' with h'; injection h' with h1 h2; exact ⟨h1.symm, h2.symm⟩
+
+/-! ### `Eats m rd`: a successful read consumes at least `m` bytes -/
+
+def Eats (m : Nat) (rd : Reader α) : Prop :=
+  ∀ inp a rest, (rd inp).res = .ok (a, rest) → rest.length + m ≤ inp.length
+
+theorem Eats.of_safe {rd : Reader α} (h : Safe rd) : Eats 0 rd := by
+  intro inp a rest hr
+  have := ((h inp).2 a rest hr).length_le
+  omega
+
+theorem Eats.bind {m k : Nat} {f : Reader α} {g : α → Reader β} (hf : Eats m f)
+    (hg : ∀ a, Eats k (g a)) : Eats (m + k) (f >>= g) := by
+  intro inp b rest h
+  obtain ⟨a, mid, h1, h2⟩ := bind_ok_inv h
+  have := hf inp a mid h1
+  have := hg a mid b rest h2
+  omega
+
+theorem Eats.u8 : Eats 1 u8 := by
+  intro inp a rest h
+  cases inp with
+  | nil => cases h
+  | cons b r =>
+    have h' : (Except.ok (b, r) : Except Err (UInt8 × Bytes)) = .ok (a, rest) := h
+    injection h' with h'; injection h' with _ h2; subst h2; simp
+
+theorem Eats.many {m : Nat} {rd : Reader α} (h : Eats m rd) (n : Nat) :
+    Eats (n * m) (readMany rd n) := by
+  induction n with
+  | zero =>
+    intro inp a rest hr
+    have := pure_ok_inv hr
+    simp [this.2]
+  | succ n ih =>
+    unfold readMany
+    have := Eats.bind h (fun a => Eats.bind ih (fun as => Eats.of_safe (Safe.pure (a :: as))))
+    intro inp a rest hr
+    have := this inp a rest hr
+    rw [Nat.succ_mul]; omega
+
+theorem many_length {rd : Reader α} (n : Nat) :
+    Post (fun l : List α => l.length = n) (readMany rd n) := by
+  induction n with
+  | zero => exact Post.pure rfl
+  | succ n ih =>
+    unfold readMany
+    exact Post.bind (Post.trivial _) (fun a _ => Post.bind ih (fun as has =>
+      Post.pure (by simp [has])))
+
 end VibeProof.BinCodec
